@@ -5992,6 +5992,9 @@ class LazyContainer(dict):
     def __len__(self):
         return len(self._struct._subcons)
 
+    def __contains__(self, key):
+        return isinstance(key, str) and key in self._struct._subconsindexes
+
     def get(self, key, default=None):
         # dict.get would read the (empty) underlying dict instead of the lazily parsed members
         if isinstance(key, str) and key in self._struct._subconsindexes:
@@ -6011,6 +6014,9 @@ class LazyContainer(dict):
 
     def __eq__(self, other):
         return Container.__eq__(self, other)
+
+    def __ne__(self, other):
+        return not self == other
 
     def __repr__(self):
         return "<LazyContainer: %s items cached, %s subcons>" % (len(self._values), len(self._struct.subcons), )
